@@ -968,6 +968,9 @@ func (s *Sim) produceBlock(opIdx int, b *BlockOp) *core.Violation {
 				s.St.Inc("probe.tx_ok." + built[i].Op.Kind)
 			} else {
 				s.St.Inc(fmt.Sprintf("probe.tx_fail.%s.%s.%d", built[i].Op.Kind, tr.Codespace, tr.Code))
+				if os.Getenv("VERIF_TXLOG") != "" { // development aid: why transactions failed
+					fmt.Fprintf(os.Stderr, "TXLOG %s: %s\n", built[i].Op.Kind, tr.Log)
+				}
 			}
 		}
 	}
